@@ -46,6 +46,7 @@ static void c17_wait_sleep(int msec);
 #include <sys/syscall.h>
 #include <linux/futex.h>
 #include <poll.h>
+#include <sys/prctl.h>
 #include "vp_tun.h"
 
 #if VP_ASAN
@@ -122,6 +123,10 @@ static struct parker parkers[NPARK];
 static struct parker libpark;		/* a library-created thread (call_rcu helper, ...) */
 static __thread struct parker *tl_parker;
 static __thread int tl_subject;
+
+/* harness robustness only (never a verdict): a parker that is starved of CPU for this long is given up on;
+ * the triple then counts as park_missed and its result / final-state comparisons are skipped */
+#define PARK_TIMEOUT_NS 20000000000ULL
 
 static void park_here(struct parker *p)
 {
@@ -370,7 +375,7 @@ static int park_wait_parked(struct parker *p)
 	for (;;) {
 		if (__atomic_load_n(&p->parked, __ATOMIC_ACQUIRE)) { ret = 1; break; }
 		if (p != &libpark && __atomic_load_n(&p->done_seq, __ATOMIC_ACQUIRE) == p->cmd_seq) { ret = 0; break; }
-		if ((++spins & 0xfff) == 0 && vp_now_ns() - t0 > 8000000000ULL) { ret = -1; break; }
+		if ((++spins & 0xfff) == 0 && vp_now_ns() - t0 > PARK_TIMEOUT_NS) { ret = -1; break; }
 		__asm__ __volatile__("pause");
 	}
 	subj_online();
@@ -553,14 +558,37 @@ static int wd_confirm(char *buf, size_t len)
 		snprintf(buf, len, "progress:%s:blocked-at:%s", st.os->name, cur.want_frozen ? cur.P : "none");
 		return 1;
 	}
-	snprintf(buf, len, "progress harness stalled: group=%s P=%s state=%s frozen=%d/%d subject-active=%d",
-		 cur.grp ? cur.grp : "-", cur.P ? cur.P : "-", cur.state ? cur.state : "-", cur.nfrozen, cur.want_frozen, st.active);
+	{
+		uint64_t s0 = st.steps;
+		usleep(200000);
+		snprintf(buf, len, "progress harness stalled: group=%s P=%s state=%s frozen=%d/%d subject-active=%d op=%s steps=%llu(+%llu in 200ms) bound=%llu "
+			 "parkers[parked/armed/release/cmd/done]=%d/%d/%d/%llu/%llu %d/%d/%d/%llu/%llu %d/%d/%d/%llu/%llu",
+			 cur.grp ? cur.grp : "-", cur.P ? cur.P : "-", cur.state ? cur.state : "-", cur.nfrozen, cur.want_frozen, st.active,
+			 st.os ? st.os->name : "-", (unsigned long long) s0, (unsigned long long) (st.steps - s0), (unsigned long long) st.bound,
+			 parkers[0].parked, parkers[0].armed, parkers[0].release, (unsigned long long) parkers[0].cmd_seq, (unsigned long long) parkers[0].done_seq,
+			 parkers[1].parked, parkers[1].armed, parkers[1].release, (unsigned long long) parkers[1].cmd_seq, (unsigned long long) parkers[1].done_seq,
+			 parkers[2].parked, parkers[2].armed, parkers[2].release, (unsigned long long) parkers[2].cmd_seq, (unsigned long long) parkers[2].done_seq);
+	}
 	return 0;
 }
 
 #include "progress_q.h"
 #include "progress_ht.h"
 #include "progress_rs.h"
+
+/* counters are refreshed after every group so that an inconclusive watchdog stop keeps what was observed */
+static void flush_counters(void)
+{
+	vp_counter_set("evaluations", ev_evals);
+	vp_counter_set("nontrivial", ev_nontrivial);
+	vp_counter_set("quiet_evaluations", ev_quiet);
+	vp_counter_set("park_missed", ev_park_missed);
+	vp_counter_set("own_steps_total", ev_total_steps);
+	vp_counter_set("wouldblock_results", ev_wouldblock);
+	vp_counter_set("helped_operations", ev_helped);
+	vp_counter_set("violating_operations", ev_viol);
+	vp_counter_set("tf_stepping", (uint64_t) opt_tf);
+}
 
 static void report_ops(void)
 {
@@ -593,6 +621,7 @@ int main(int argc, char **argv)
 		setenv("LD_BIND_NOW", "1", 1);
 		execv("/proc/self/exe", argv);
 	}
+	prctl(PR_SET_NAME, "c17_progress", 0, 0, 0);
 	vp_init(argc, argv, "progress");
 	opt_tf = (int) vp_arg_long("step", VP_TSAN ? 0 : 1);
 	opt_reps = vp_arg_long("reps", 1);
@@ -626,18 +655,20 @@ int main(int argc, char **argv)
 			return 2;
 		}
 	}
-	vp_watchdog_start((uint64_t) vp_arg_long("stall-ms", 40000), wd_confirm);
+	/* generous: on an oversubscribed machine (another process pinned to the same CPUs) a single-stepped
+	 * operation has been seen to advance by only ~25 instructions per second */
+	vp_watchdog_start((uint64_t) vp_arg_long("stall-ms", vp_opt.tier ? 300000 : 120000), wd_confirm);
 
 	/* the repetition number selects API variants (locked / lock-free head types, allocator, flags, first or
 	 * second cmpxchg attempt of parked pushers, ...): start at a seed-dependent offset */
 	long rep0 = (long) (vp_opt.seed % 6);
 	for (long rep = rep0; rep < rep0 + opt_reps && vp_nviolations() < 24; rep++) {
-		if (group_enabled("wfcq")) run_wfcq(rep);
-		if (group_enabled("wfs")) run_wfs(rep);
-		if (group_enabled("lfs")) run_lfs(rep);
-		if (group_enabled("lfq")) run_lfq(rep);
-		if (group_enabled("lfht")) run_lfht(rep);
-		if (group_enabled("rs")) run_rs(rep);
+		if (group_enabled("wfcq")) { run_wfcq(rep); flush_counters(); }
+		if (group_enabled("wfs")) { run_wfs(rep); flush_counters(); }
+		if (group_enabled("lfs")) { run_lfs(rep); flush_counters(); }
+		if (group_enabled("lfq")) { run_lfq(rep); flush_counters(); }
+		if (group_enabled("lfht")) { run_lfht(rep); flush_counters(); }
+		if (group_enabled("rs")) { run_rs(rep); flush_counters(); }
 	}
 
 	for (int i = 0; i < NPARK; i++) {
@@ -648,15 +679,7 @@ int main(int argc, char **argv)
 #if !VP_IS_BP
 	rcu_unregister_thread();
 #endif
-	vp_counter_add("evaluations", ev_evals);
-	vp_counter_add("nontrivial", ev_nontrivial);
-	vp_counter_add("quiet_evaluations", ev_quiet);
-	vp_counter_add("park_missed", ev_park_missed);
-	vp_counter_add("own_steps_total", ev_total_steps);
-	vp_counter_add("wouldblock_results", ev_wouldblock);
-	vp_counter_add("helped_operations", ev_helped);
-	vp_counter_add("violating_operations", ev_viol);
-	vp_counter_add("tf_stepping", (uint64_t) opt_tf);
+	flush_counters();
 	report_ops();
 	return vp_finish();
 }
